@@ -53,7 +53,7 @@ def last_ps(doc, idx=-1):
 
 def run(res, tier):
     res.assumptions += [
-        "horizon 16 steps, thorough tier 32 (8 per synchrotron period: step counts exact in single precision); all split points",
+        "horizon 16 steps, thorough tier 32 (8 per synchrotron period: step counts exact in single precision); all split points including the two ends (a first or a second leg of length zero)",
         "bit-identity demanded for RenormalizeCharge<0; RenormalizeCharge=0: equal within rounding (4e-7 of the maximum for the loaded state, 2e-5 for the end state: main() passes the loaded grid through normalize() once, which for a grid read from a file divides by 1 +- an ulp); RenormalizeCharge>0: the continued run renormalises on a different schedule: loaded state = stored state / recorded charge, end state within (|1/Q-1|+1e-6)*max f with Q the recorded charge (twice that with an impedance: amplitude and wake kick both scale with the charge)",
         "same FFTW wisdom for all runs (warm-up); start state = asymmetric off-centre blob loaded from a start file",
         "RF modulation / noise are not part of the lattice (the modulation phase is a function of the time since program start, which a results file does not carry)",
@@ -88,7 +88,7 @@ def run(res, tier):
 
     cases = []
     for g in groups:
-        for t1 in range(1, TOTAL):
+        for t1 in range(0, TOTAL + 1):
             for sr in (srecs if (g[0] == 16 and g[1] == "collimator" and g[3] == 0 and g[4] == "file") or (vlib.wide(tier) and g[3] == 0 and g[4] == "file") else [None]):
                 cases.append((g, t1, sr, 1))
     # the first leg written with a coarser phase-space cadence: the final state is stored regardless, "the last record" is the state at T1
